@@ -314,3 +314,19 @@ func SoftFailToken(symbol string) []byte {
 	retTrue()
 	return l.bytes()
 }
+
+// ReenterWhilePoor is the runtime code of a contract that, whenever it is called while its own coin
+// balance is below `limit`, CALLs `target` with `payload` and ignores the outcome; once its balance has
+// reached the limit it returns at once. Used as a call-back target that tries to run a precompile
+// method from inside the execution that called it: every (nested) execution pays it one more unit of
+// value through the bank, which every nesting level sees, so the recursion is bounded.
+func ReenterWhilePoor(target common.Address, payload []byte, gas uint64, limit byte) []byte {
+	const selfbalance, lt = 0x47, 0x10
+	a := &Asm{}
+	a.Push1(limit).Op(selfbalance, lt).Push1(8).Op(JUMPI, STOP) // 0..7: balance >= limit -> stop
+	a.Op(JUMPDEST)                                                // 8
+	a.Push2(len(payload)).PushBlobOffset(payload).Push1(0).Op(CODECOPY)
+	// CALL(gas, to, value, inOffset, inSize, outOffset, outSize)
+	a.Push1(0).Push1(0).Push2(len(payload)).Push1(0).Push1(0).PushAddr(target).PushU64(gas).Op(CALL, POP, STOP)
+	return a.Bytes()
+}
